@@ -12,6 +12,7 @@ type entry[K comparable, V Conn] struct {
 	key    K
 	val    V
 	exp    *time.Timer
+	gone   bool // set under Pool.mu once the entry has been unlinked from the lists
 	global node[K, V]
 	local  node[K, V]
 }
